@@ -133,6 +133,11 @@ class ZBOSS:
 
         XXX: Can be called multiple times in a single event loop step!
         """
+        if frame.ll_header.flags & t.LLFlags.FirstFrag:
+            # A first fragment always starts a new message: drop what is
+            # left of a fragment sequence that was never completed
+            self._rx_fragments = []
+
         if not frame.ll_header.flags & t.LLFlags.LastFrag:
             LOGGER.debug("Received fragment: %s", frame)
             self._rx_fragments.append(frame)
